@@ -1,4 +1,5 @@
 import Dnp3.Proofs.OutstationIin
+import Dnp3.Proofs.FreezeAtTime
 /-!
 # Frame lemmas for the primitives of the outstation session model
 
@@ -7,6 +8,7 @@ appended to, every appended output satisfying `P`.  `Db.*` stays opaque.
 -/
 namespace Dnp3.Proofs.Frame
 open Dnp3
+open Dnp3.Proofs.FreezeAtTime
 
 -- safety net: the database interface is opaque in every proof of this development
 attribute [local irreducible] Db.new Db.add Db.update Db.readSupported Db.select Db.writeResponse
@@ -257,6 +259,11 @@ theorem handleFreeze_frame (a : Acc) (seq : Nat) (k : FreezeKind) (hs : List Obj
   intro p h
   exact handleFreezeHeader_frame _ _ _
 
+theorem handleFreezeAtTime_frame (a : Acc) (seq : Nat) (hs : List ObjHdr) :
+    Frame id AppP a (handleFreezeAtTime a seq hs).1 :=
+  handleFreezeAtTime_inv (fun b => Frame id AppP a b)
+    (fun b h hb => hb.trans (handleFreezeHeader_frame b .atTime h)) a seq hs (Frame.refl _ _ _)
+
 theorem handleEnableDisable_frame (a : Acc) (en : Bool) (seq : Nat) (hs : List ObjHdr) :
     Frame keepEnOnly (fun _ => False) a (handleEnableDisable a en seq hs).1 := by
   unfold handleEnableDisable
@@ -393,14 +400,14 @@ theorem handleNonRead_cases (a : Acc) (func seq fid : Nat) (hs : List ObjHdr) (r
     rw [if_pos hc] at hr
     cases hr
     refine .misc (by omega) (by omega) (by omega) ?_
-    exact Frame.refl _ _ _
+    exact (handleFreezeAtTime_frame a seq _).weaken keepMisc_of_id
   rw [if_neg hc10] at hr
   by_cases hc11 : func = 12
   · have hc := hc11
     rw [if_pos hc] at hr
     cases hr
     refine .misc (by omega) (by omega) (by omega) ?_
-    exact Frame.refl _ _ _
+    exact (handleFreezeAtTime_frame a seq _).weaken keepMisc_of_id
   rw [if_neg hc11] at hr
   by_cases hc12 : func = 20
   · have hc := hc12
@@ -818,6 +825,8 @@ inductive BCCase (a0 : Acc) (f : Frag) (ctrl : AppCtrl) (func : Nat) (objs : Exc
       handleControls a0 6 ctrl.seq f.id hs raw = some (a1, r) → BCCase a0 f ctrl func objs raw a1
   | freeze (hs : List ObjHdr) (k : FreezeKind) : func ≠ 2 → func ≠ 20 → func ≠ 21 → objs = .ok hs →
       BCCase a0 f ctrl func objs raw (handleFreeze a0 ctrl.seq k hs).1
+  | freezeAt (hs : List ObjHdr) : func = 12 → objs = .ok hs →
+      BCCase a0 f ctrl func objs raw (handleFreezeAtTime a0 ctrl.seq hs).1
   | record : func = 24 → BCCase a0 f ctrl func objs raw ({ a0.1 with lastRecorded := some a0.1.now }, a0.2)
   | enable (hs : List ObjHdr) : func = 20 → objs = .ok hs →
       BCCase a0 f ctrl func objs raw (handleEnableDisable a0 true ctrl.seq hs).1
@@ -855,7 +864,7 @@ theorem processBroadcast_cases (a : Acc) (f : Frag) (m : Nat) (ctrl : AppCtrl) (
     exact ⟨_, _, .freeze hs .clear (by omega) (by omega) (by omega) rfl, rfl⟩
   rw [if_neg h10] at h
   by_cases h12 : func = 12
-  · rw [if_pos h12] at h; cases h; exact ⟨_, _, .nothing, rfl⟩
+  · rw [if_pos h12] at h; cases h; exact ⟨_, _, .freezeAt hs h12 rfl, rfl⟩
   rw [if_neg h12] at h
   by_cases h24 : func = 24
   · rw [if_pos h24] at h; cases h; exact ⟨_, _, .record h24, rfl⟩
@@ -881,6 +890,9 @@ theorem BCCase.frame {a0 : Acc} {f : Frag} {ctrl : AppCtrl} {func : Nat} {objs :
       simp only [keepCtl2, Prod.mk.injEq] at h; exact h.1)).mono (fun o h => NRP_kind o (Or.inl h))
   | freeze hs k _ _ _ _ =>
     exact ((handleFreeze_frame _ _ _ _).weaken (fun s s' h => by
+      simp only [id] at h; rw [h])).mono (fun o h => NRP_kind o (Or.inl h))
+  | freezeAt hs _ _ =>
+    exact ((handleFreezeAtTime_frame _ _ _).weaken (fun s s' h => by
       simp only [id] at h; rw [h])).mono (fun o h => NRP_kind o (Or.inl h))
   | record _ => exact Frame.kstate _ _ _ rfl
   | enable hs _ _ =>
